@@ -109,8 +109,22 @@ func (c *Cluster) handleShareFetch(creq *clientReq, w *watchShareFetch) (kmsg.Re
 		}
 		return i
 	}
+	// A partition has one entry in the response: the verdict on its
+	// piggybacked acknowledgements and the result of the fetch go into
+	// the same entry. A client that met two entries for a partition (one
+	// with AcknowledgeErrorCode 0 and a fetch error, one with the
+	// acknowledgement error) took the first for the verdict.
+	partIdx := make(map[tpKey]int)
 	donep := func(tid uuid, p int32, errCode int16) *kmsg.ShareFetchResponseTopicPartition {
 		idx := addTopic(tid)
+		if i, ok := partIdx[tpKey{tid, p}]; ok {
+			sp := &resp.Topics[idx].Partitions[i]
+			if errCode != 0 {
+				sp.ErrorCode = errCode
+			}
+			return sp
+		}
+		partIdx[tpKey{tid, p}] = len(resp.Topics[idx].Partitions)
 		sp := kmsg.NewShareFetchResponseTopicPartition()
 		sp.Partition = p
 		sp.ErrorCode = errCode
